@@ -104,6 +104,24 @@ def run(prop, tier, seed, mod, replay, t0):
     # 2. property-specific: regenerated obligations + differential / trace runs
     if ok:
         mod.run(ctx)
+        # A check whose verdict depends on wall-clock thresholds re-runs itself once when it fails:
+        # only what fails in both runs is reported (a scheduling hiccup of a loaded machine does not
+        # reproduce; a change of behaviour does). Obligation failures are never retried away.
+        if getattr(mod, "RETRY_TIMING", False) and any(f["kind"] in ("impl", "mismatch") for f in ctx.failures):
+            first = ctx.failures
+            log("[%s] timing-sensitive failures (%s): running once more" % (prop, sorted({f["key"] for f in first})))
+            ctx2 = Ctx(prop, tier, seed)
+            mod.run(ctx2)
+            keys2 = {f["key"] for f in ctx2.failures}
+            kept = [f for f in first if f["kind"] not in ("impl", "mismatch") or f["key"] in keys2]
+            dropped = sorted({f["key"] for f in first} - {f["key"] for f in kept})
+            if dropped:
+                ctx.notes.append("not reproduced on the immediate re-run, not reported: %s" % dropped)
+            ctx.failures = kept
+            ctx.records += ctx2.records
+            ctx.obligations += ctx2.obligations
+            ctx.discharged += ctx2.discharged
+            ctx.traces += ctx2.traces
     # 3. classify
     known = {f["key"]: f for f in vlib.known_findings() if f.get("property") == prop and "key" in f}
     seen_known, violations = {}, []
